@@ -94,6 +94,8 @@ type Options struct {
 	// Perturb additionally interleaves CheckTx/ReCheck/Simulate/Query calls on it.
 	Twin    bool
 	Perturb bool
+	// ProbeDenoms are extra (possibly non-existing) denom ids used as query arguments.
+	ProbeDenoms []string
 	// Known-finding exclusions that are currently open (by key).
 	Open map[string]bool
 }
@@ -178,7 +180,7 @@ func New(opt Options) (*World, error) {
 		dir := opt.Dir
 		c.ReopenDB = func() (dbm.DB, error) { return dbm.NewGoLevelDB("app", dir) }
 	}
-	w := &World{Opt: opt, C: c, Accts: accts,
+	w := &World{Opt: opt, C: c, Accts: accts, ProbeDenoms: opt.ProbeDenoms,
 		AOL: NewAolModel(), DID: NewDidModel(), PNFT: NewPnftModel(), Authz: map[string]bool{},
 		Labels: map[string]int{}, Excluded: map[string]int{}, Obs: map[string]int{}, Keys: DIDKeys()}
 	w.pendDT = 5
